@@ -86,6 +86,13 @@ type c10Case struct {
 }
 
 func (p c10) Run(w *mon.Worker, idx int) mon.Result {
+	if idx%10 == 3 {
+		// O6: one encoder object serves all documents of a run (every output format): the text for document k does
+		// not depend on documents 1..k-1 (shared with C14's encoder-state family)
+		res := c14MultiDoc(w, idx)
+		res.Tags = append(res.Tags, "family:O6")
+		return res
+	}
 	r := w.Rand(idx)
 	dir := filepath.Join(w.Scratch, fmt.Sprintf("c10-%d", idx))
 	_ = os.MkdirAll(dir, 0o755)
